@@ -32,6 +32,7 @@ const (
 	hLocRel
 	hLocPlainHTTP
 	hOther
+	hContentLocation // not a Location header
 	hKinds
 )
 
@@ -140,6 +141,8 @@ func c03World(nslots int, general bool) (*VWorld, []*c03Slot) {
 				sb.WriteString("Location: http://" + slots[s.locs[h]].host + "/s" + string(rune('0'+s.locs[h])) + "\r\n")
 			case hOther:
 				sb.WriteString("X-Whatever: content-type: application/json\r\n")
+			case hContentLocation:
+				sb.WriteString("Content-Location: " + slots[len(slots)-1].url + "\r\nX-Content-Type: text/html\r\n")
 			}
 		}
 		sb.WriteString("\r\n")
